@@ -25,7 +25,7 @@ ASSUMPTIONS = [
     "any exception counts as 'reported as an error' here; exception types are judged in C14",
     "reference CRC = bit-serial LFSR (vlib.refcrc), reference AES = OpenSSL libcrypto",
 ]
-REQUIRED_CLASSES = ["len=0", "len=253", "crc.lo=00", "crc.hi=00", "crc=0000", "code-encryptor", "custkey", "custkey.key-bytes-also-outside-slot", "neg.marker", "neg.crc", "neg.foreign-key",
+REQUIRED_CLASSES = ["len=0", "len=253", "crc.lo=00", "crc.hi=00", "crc=0000", "code-encryptor", "custkey", "custkey.key-bytes-also-outside-slot", "custkey.frame-with-blank-slot", "neg.marker", "neg.crc", "neg.foreign-key",
                     "payload.trailing00"]
 
 B2 = sut.B2
@@ -225,6 +225,17 @@ def check_custkey(case, rec):
     blank[pos: pos + 10] = bytes(10)
     if back != bytes(blank):
         raise Violation("unwrapping with customer key returns %s, expected slot-blanked %s" % (bytes(back).hex(), bytes(blank).hex()))
+    # a frame made under the same AES key WITHOUT the customer key (the slot still holds the blank placeholder): the configured key is
+    # verified, so this frame is refused like one with any other wrong key
+    if any(ck):
+        rec.cls("custkey.frame-with-blank-slot")
+        ct_blank = B2.SoftwareCustKeyEncryptor(key).encrypt(bytes(blank))
+        try:
+            r0 = e.decrypt(ct_blank)
+        except Exception:
+            pass
+        else:
+            raise Violation("a decryptor configured with customer key %s accepted a frame whose slot at %d holds the blank placeholder (made without the customer key) and returned %s" % (ck.hex(), pos, bytes(r0).hex()))
     wrong = bytes([ck[0] ^ (1 << case["flip"] % 8)]) + ck[1:] if case["flip"] < 8 else ck[:9] + bytes([ck[9] ^ 0x80])
     e_wrong = B2.SoftwareCustKeyEncryptor(key, wrong, pos)
     try:
